@@ -59,7 +59,7 @@ fn main() {
                 let desc = format!("DateTime<{}>({}).into_unit::<{}>() / cast / via chrono", uname(u), x, uname(t));
                 em.case("exact", &tags, &desc, || format!("(r16_conv {} {} {})", uname(u), uname(t), coq_z(x as i128)), || {
                     with_unit!(u, U => with_unit!(t, T => {
-                        let d = DateTime::<U>::new(x);
+                        prime(x, u); let d = DateTime::<U>::new(x);
                         let mut c = gi(|| d.into_unit::<T>().into_i64());
                         // Cast<DateTime<T>> exists for the 12 distinct pairs; for u == t it is the identity
                         c.extend(gi(|| cast_to::<U, T>(d, u == t)));
@@ -75,7 +75,7 @@ fn main() {
                     em.case("exact", &format!("fn=back pair={}>{} dir={} class={}", uname(u), uname(t), dir, class), &desc,
                         || format!("(r16_back {} {} {})", uname(u), uname(t), coq_z(x as i128)), || {
                         with_unit!(u, U => with_unit!(t, T => {
-                            let d = DateTime::<U>::new(x);
+                            prime(x, u); let d = DateTime::<U>::new(x);
                             g(|| d.into_unit::<T>(), |y| {
                                 let mut c = vec![int(y.into_i64())];
                                 c.extend(gi(|| y.into_unit::<U>().into_i64()));
@@ -99,7 +99,7 @@ fn main() {
             em.case("exact", &tags, &format!("DateTime<{}>({}) is_nat/into_i64/into_opt_i64/cast/from_opt_i64", uname(u), x),
                 || format!("(r16_basic {})", coq_z(x as i128)), || {
                 with_unit!(u, U => {
-                    let d = DateTime::<U>::new(x);
+                    prime(x, u); let d = DateTime::<U>::new(x);
                     let ci: i64 = d.cast();
                     let co: Option<i64> = d.cast();
                     vec![boolc(d.is_nat()), int(d.into_i64()), opt_int(d.into_opt_i64()), int(ci), opt_int(co),
@@ -114,7 +114,7 @@ fn main() {
                 &format!("DateTime<{}>({}).cast::<Option<i32|u8|u64|usize|isize|f64|f32>>().is_none()", uname(u), x),
                 || format!("(c_bool (Tevec.Model.Time.is_nat {x}) ++ c_bool (Tevec.Model.Time.is_nat {x}) ++ c_bool (Tevec.Model.Time.is_nat {x}) ++ c_bool (Tevec.Model.Time.is_nat {x}) ++ c_bool (Tevec.Model.Time.is_nat {x}) ++ c_bool (Tevec.Model.Time.is_nat {x}) ++ c_bool (Tevec.Model.Time.is_nat {x}))", x = coq_z(x as i128)), || {
                 with_unit!(u, U => {
-                    let d = DateTime::<U>::new(x);
+                    prime(x, u); let d = DateTime::<U>::new(x);
                     let a: Option<i32> = d.cast(); let b: Option<u8> = d.cast(); let c: Option<u64> = d.cast();
                     let e: Option<usize> = d.cast(); let f: Option<isize> = d.cast(); let g: Option<f64> = d.cast(); let h: Option<f32> = d.cast();
                     vec![boolc(a.is_none()), boolc(b.is_none()), boolc(c.is_none()), boolc(e.is_none()), boolc(f.is_none()), boolc(g.is_none()), boolc(h.is_none())]
@@ -125,7 +125,7 @@ fn main() {
                 &format!("DateTime<{}>({}) / Time({}) / TimeDelta::from({}): is_nat, is_not_nat; into_opt_i64(from_opt_i64(Some(x))); from_opt_i64(None)", uname(u), x, x, x),
                 || format!("(r16_flags {})", coq_z(x as i128)), || {
                 with_unit!(u, U => {
-                    let d = DateTime::<U>::new(x);
+                    prime(x, u); let d = DateTime::<U>::new(x);
                     let t = Time::from_i64(x);
                     let td = TimeDelta::from(x);
                     vec![boolc(d.is_nat()), boolc(d.is_not_nat()), boolc(t.is_nat()), boolc(t.is_not_nat()),
@@ -164,7 +164,7 @@ fn main() {
             em.case("exact", &tags, &format!("DateTime<{}>({}) as_cr / from(as_cr) / year month day hour minute second time", uname(u), x),
                 || format!("(r16_cr {} {})", uname(u), coq_z(x as i128)), || {
                 with_unit!(u, U => {
-                    let d = DateTime::<U>::new(x);
+                    prime(x, u); let d = DateTime::<U>::new(x);
                     let mut c = vec![];
                     let o = d.as_cr();
                     match o {
@@ -191,7 +191,7 @@ fn main() {
                 &format!("chrono::DateTime::<Utc>::try_from(DateTime<{}>({})) / to_cr / from(try_from)", uname(u), x),
                 || format!("(r16_tryfrom {} {})", uname(u), coq_z(x as i128)), || {
                 with_unit!(u, U => {
-                    let d = DateTime::<U>::new(x);
+                    prime(x, u); let d = DateTime::<U>::new(x);
                     g(|| {
                         let o: Option<CrDateTime<Utc>> = CrDateTime::<Utc>::try_from(d).ok();
                         #[allow(deprecated)]
@@ -341,7 +341,7 @@ fn main() {
                         em.case("exact", &tags, &format!("DateTime<{}>({}) {} TimeDelta{{months:{}, ns:{}}}", uname(u), x, op, m, ns),
                             || format!("(r_dt{} {} {} {})", op, uname(u), coq_z(x as i128), td_coq(m, ns)), || {
                             with_unit!(u, U => {
-                                let d = DateTime::<U>::new(x);
+                                prime(x, u); let d = DateTime::<U>::new(x);
                                 let t = td(m, ns);
                                 gi(|| if op == "add" { (d + t).into_i64() } else { (d - t).into_i64() })
                             })
@@ -351,7 +351,7 @@ fn main() {
                     if x == NAT {
                         em.case("exact", &tags, &format!("DateTime<{}>(NaT).duration_trunc(TimeDelta{{months:{}, ns:{}}})", uname(u), m, ns),
                             || format!("(r_trunc {} {} {})", uname(u), coq_z(x as i128), td_coq(m, ns)), || {
-                            with_unit!(u, U => { let d = DateTime::<U>::new(x); let t = td(m, ns); gi(|| d.duration_trunc(t).into_i64()) })
+                            with_unit!(u, U => { prime(x, u); let d = DateTime::<U>::new(x); let t = td(m, ns); gi(|| d.duration_trunc(t).into_i64()) })
                         });
                     }
                 }
@@ -361,7 +361,7 @@ fn main() {
                     em.case("exact", &format!("fn=dtdiff_nat unit={} nat={}", uname(u), which),
                         &format!("DateTime<{}>({}) - DateTime({})", uname(u), x, y),
                         || format!("(r_dtdiff {} {} {})", uname(u), coq_z(x as i128), coq_z(y as i128)), || {
-                        with_unit!(u, U => { let (a, b) = (DateTime::<U>::new(x), DateTime::<U>::new(y)); gtd(|| a - b) })
+                        with_unit!(u, U => { prime(y, u); prime(x, u); let (a, b) = (DateTime::<U>::new(x), DateTime::<U>::new(y)); gtd(|| a - b) })
                     });
                 }
             }
